@@ -1,5 +1,5 @@
 // C02 SIMD stream: solve / invert / determinant of FieldMatrix<LoopSIMD<double,L>,n,n> (L = 2, 4) and
-// DynamicMatrix<LoopSIMD<double,4>>, n = 4..6.  Lanes hold DIFFERENT small-integer matrices (different pivot patterns,
+// DynamicMatrix<LoopSIMD<double,4>>, n = 1..6 (closed forms n <= 3: regular lanes only).  Lanes hold DIFFERENT small-integer matrices (different pivot patterns,
 // regular and exactly singular lanes); the generator only emits lanes on which the elimination is exact in binary
 // floating point, so the printed doubles can be compared exactly with rational arithmetic.
 // case line:  0 kind op n piv v...   kind: S2 | S4 (FieldMatrix<LoopSIMD<double,L>,n,n>) | T4 (DynamicMatrix<LoopSIMD<double,4>>)
@@ -73,8 +73,8 @@ int main(int argc, char** argv)
     std::string r = "BAD-CASE";
     if ((int)v.size() == L * (n * n + (op == "solve" ? n : 0))) {
       if (kind == "T4") r = run_T(op, n, piv, v);
-      else if (kind == "S2") switch (n) { case 4: r = run_S<2, 4>(op, piv, v); break; case 5: r = run_S<2, 5>(op, piv, v); break; case 6: r = run_S<2, 6>(op, piv, v); break; }
-      else if (kind == "S4") switch (n) { case 4: r = run_S<4, 4>(op, piv, v); break; case 5: r = run_S<4, 5>(op, piv, v); break; case 6: r = run_S<4, 6>(op, piv, v); break; }
+      else if (kind == "S2") switch (n) { case 1: r = run_S<2, 1>(op, piv, v); break; case 2: r = run_S<2, 2>(op, piv, v); break; case 3: r = run_S<2, 3>(op, piv, v); break; case 4: r = run_S<2, 4>(op, piv, v); break; case 5: r = run_S<2, 5>(op, piv, v); break; case 6: r = run_S<2, 6>(op, piv, v); break; }
+      else if (kind == "S4") switch (n) { case 1: r = run_S<4, 1>(op, piv, v); break; case 2: r = run_S<4, 2>(op, piv, v); break; case 3: r = run_S<4, 3>(op, piv, v); break; case 4: r = run_S<4, 4>(op, piv, v); break; case 5: r = run_S<4, 5>(op, piv, v); break; case 6: r = run_S<4, 6>(op, piv, v); break; }
     }
     std::printf("%s\n", r.c_str()); std::fflush(stdout);
   }
